@@ -14,7 +14,11 @@ Inductive case :=
 | CCancel (id : Z) (k : Z) (ncancel nlong : Z) (obs_cancel_returned obs_long_returned : Z)
 (* Launch / DoTimes / Operation.Add: n goroutines started through the group; observed: counter right after the
    launches (all goroutines gated), whether Wait returned before the gate opened, counter after Wait returned *)
-| CLaunch (id : Z) (n : Z) (obs_after_launch : Z) (obs_wait_early : bool) (obs_final : Z).
+| CLaunch (id : Z) (n : Z) (obs_after_launch : Z) (obs_wait_early : bool) (obs_final : Z)
+(* DoTimes / StartGroup / loops of Launch / Operation.Add with ANY count n (negative, zero, positive) on a group on
+   which k launched workers are still running (gated): did the call panic, the counter right after it, whether a Wait
+   with a live context returned while all workers were still gated, the counter after everything was released *)
+| CDoTimes (id : Z) (k : Z) (n : Z) (obs_panic : bool) (obs_after : Z) (obs_wait_early : bool) (obs_final : Z).
 
 Definition res_eqb (a b : wg_res) : bool :=
   match a, b with
@@ -32,11 +36,7 @@ Fixpoint list_eqb {A} (eqb : A -> A -> bool) (a b : list A) : bool :=
   end.
 
 Definition case_id (c : case) : Z :=
-  match c with CSeq id _ _ _ => id | CRounds id _ => id | CCancel id _ _ _ _ _ => id | CLaunch id _ _ _ _ => id end.
-
-(* n Launches in a row on the spawn model, goroutines not yet finished: the counter *)
-Fixpoint launch_counter (n : nat) (c : Z) : Z :=
-  match n with O => c | S n' => launch_counter n' (fst (fst (wg_add c 1))) end.
+  match c with CSeq id _ _ _ => id | CRounds id _ => id | CCancel id _ _ _ _ _ => id | CLaunch id _ _ _ _ => id | CDoTimes id _ _ _ _ _ _ => id end.
 
 Definition check_case (c : case) : bool :=
   match c with
@@ -58,6 +58,13 @@ Definition check_case (c : case) : bool :=
       let c1 := launch_counter (Z.to_nat n) 0 in
       Z.eqb after c1
       && Bool.eqb early (match snd (wg_step c1 WWait) with RReturned => true | _ => false end)
+      && Z.eqb fin 0
+  | CDoTimes _ k n pan after early fin =>
+      let c1 := launch_counter (Z.to_nat k) 0 in
+      let c2 := dotimes_counter n c1 in
+      negb pan
+      && Z.eqb after c2
+      && Bool.eqb early (match snd (wg_step c2 WWait) with RReturned => true | _ => false end)
       && Z.eqb fin 0
   end.
 
